@@ -158,3 +158,88 @@ def domain_pass(ctx, cases, impl, handlers, theorem, accepted=("Replaced", "Rewr
                          % (len(outside_fail), theorem, ", ".join("%s[%s]" % (c.cid, ",".join(c.tags)) for c in outside_fail[:5])))
     ctx.coverage["theorem_domain"] = counts
     return counts
+
+
+def cli_pass(ctx, cases, impl, handler, ext, max_good=8, max_bad=4, max_noop=3):
+    """The same inputs through the command line: serial, -j1 and -j3, files the handler refuses listed first, a
+    leftover temporary file (longer than the output) next to some inputs.  Every file must end up with the bytes
+    the in-process run gave it, and no temporary file may remain.  This is where a worker that stops at the first
+    refused file, an output written over stale contents, or a worker configured differently from a serial run shows."""
+    import collections as _c
+    import fsharness as fh
+    from framework import build_cli
+    okc, outc = build_cli(release=False)
+    ctx.oblige("build: the command-line tool builds from /repo's current tree", okc, outc[-400:])
+    if not okc:
+        return
+    sel = [c for c in cases if c.handler == handler and not c.check and c.nlink == 1 and c.data and impl.get(c.cid) is not None]
+    good_all = [c for c in sel if impl[c.cid][0] == "Replaced"]
+    if not good_all:
+        ctx.notes.append("cli pass[%s]: no modifying case to run" % handler)
+        return
+    # one epoch (and, for archives, one file mtime) per command line: take the most common among modifying cases
+    key = lambda c: (c.epoch, c.mtime)
+    best = _c.Counter(key(c) for c in good_all).most_common(1)[0][0]
+    grp = [c for c in sel if key(c) == best]
+    good = [c for c in grp if impl[c.cid][0] == "Replaced"][:max_good]
+    bad = [c for c in grp if impl[c.cid][0] in ("BadFormat", "Error")][:max_bad]
+    noop = [c for c in grp if impl[c.cid][0] == "Noop"][:max_noop]
+    epoch, fmtime = best
+    problems = []
+    configs = [("serial", []), ("-j1", ["-j1"]), ("-j3", ["-j3"])]
+    for label, opts in configs:
+        t = fh.Tree()
+        try:
+            order, expect = [], {}
+            garbage = b"\x00\xffnot a file of this format\n" * 3          # refused (or ignored) by every handler, listed first
+            t.add_file("00-garbage." + ext, garbage)
+            order.append("00-garbage." + ext)
+            expect["00-garbage." + ext] = garbage
+            for i, c in enumerate(bad + good + noop, 1):
+                rel = ("sub/" if i % 3 == 2 else "") + "%02d-%s.%s" % (i, c.cid.replace("/", "_")[:40], ext)
+                t.add_file(rel, c.data, mtime_ns=(fmtime * 10**9 if fmtime is not None else 1700000000 * 10**9))
+                order.append(rel)
+                expect[rel] = impl[c.cid][1] if impl[c.cid][0] == "Replaced" else c.data
+            stale = []
+            for rel in [r for r in order if expect[r] != open(t.path(r), "rb").read()][:2]:
+                d, b = os.path.split(rel)
+                srel = os.path.join(d, ".#." + b + ".tmp")
+                t.add_file(srel, b"STALE-TEMPORARY-DATA " * ((len(expect[rel]) + 4096) // 21 + 1))
+                stale.append(srel)
+            args = opts + ["--handler", handler] + [t.path(r) for r in order if not r.startswith("sub/")] + [t.path("sub")] * (1 if any(r.startswith("sub/") for r in order) else 0)
+            rc, out = fh.run_cli(args, epoch=epoch, timeout=180)
+            if rc == 124:
+                problems.append((label, "the run did not come back", order, None))
+                continue
+            for rel in order:
+                try:
+                    got = open(t.path(rel), "rb").read()
+                except OSError as e:
+                    got = None
+                if got != expect[rel]:
+                    problems.append((label, "%s: %s bytes on disk, the in-process run gave %d (input %d)" % (rel, "no" if got is None else len(got), len(expect[rel]), len(open(t.path(rel), "rb").read()) if got is not None else 0), order, out[-600:]))
+                    break
+            left = [os.path.join(dp, f) for dp, _, fs in os.walk(t.root) for f in fs if f.startswith(".#.") and f.endswith(".tmp")]
+            if left:
+                problems.append((label, "temporary file left behind: %s" % ", ".join(os.path.relpath(x, t.root) for x in left[:3]), order, out[-600:]))
+        finally:
+            t.remove()
+    ok = not problems
+    name = "cli[%s]: serial, -j1 and -j3 over %d files (%d refused ones first, stale temporary files beside two inputs) leave every file with the bytes of the in-process run" % (handler, 1 + len(bad) + len(good) + len(noop), 1 + len(bad))
+    if ok:
+        ctx.oblige(name, True, "")
+    else:
+        label, why, order, out = problems[0]
+        chosen = bad + good + noop
+        files = {}
+        for i, c in enumerate(chosen):
+            files["%02d-input.%s" % (i, ext)] = c.data
+            files["%02d-expected.%s" % (i, ext)] = impl[c.cid][1] if impl[c.cid][0] == "Replaced" else c.data
+        d = write_replay(ctx, "cli-pass-" + handler, files,
+                         {"kind": "cli-pass", "handler": handler, "config": label, "epoch": epoch, "file_mtime": fmtime, "failure": why, "files_in_order": order,
+                          "output_tail": out,
+                          "how_to_replay": "put NN-input.<ext> into a scratch directory under the names in files_in_order (a .#.<name>.tmp file of junk, longer than the "
+                                           "expected output, beside the first two modified ones); SOURCE_DATE_EPOCH=<epoch> add-determinism <config> --handler <handler> "
+                                           "<files not under sub/ in that order> <dir>/sub; compare every file with NN-expected.<ext>"})
+        ctx.violations.append({"replay": d, "kind": "cli-pass", "msg": why})
+        ctx.oblige(name, False, "%s: %s" % (label, why))
